@@ -170,6 +170,16 @@ CLAIMS = {
          "It does NOT decide that the comparisons are right for every byte string, nor anything about RangeGet/Search, ordering or neighbour "
          "bookkeeping (rank values and key bytes at run time) — most of the property's behaviour is outside this claim."),
    design="4/C03"),
+ "C09": dict(
+   technique="guarded result summary of Search + symbolic sibling agreement of first/last-child terms + call-graph routing of the neighbour walks",
+   text=("Decides structural necessary conditions of exact neighbours, for every trie and query: Search returns, position by position, the leaf "
+         "value of the left / equal / right id of the three-way descent exactly when that id is not -1 (nil otherwise), all three through the same "
+         "leaf accessor; the bounds within which the descent accepts a left or right neighbour candidate are, as normalised terms, the very child ids "
+         "the extreme-leaf walks follow (first child = rank(Inners, from)+1, last child = rank(Inners, to-1)+bit) — one definition of a node's first "
+         "and last child; the left candidate is finished by the right-most walk and the right candidate by the left-most walk. It does NOT decide "
+         "which candidate is chosen at each level nor anything that depends on rank values and key bytes at run time — most of the property's "
+         "behaviour is outside this claim."),
+   design="4/C09"),
  "C19": dict(
    technique="provenance typing of []uint64 values (bitmap words vs label path lists) through returns/tuples + map-range/sort discipline + session-field typestate",
    text=("Decides the clause whose violation made String() panic on tries with table-compressed nodes: no path list flows into a bitmap "
@@ -180,9 +190,6 @@ CLAIMS = {
 }
 
 NA = {
- "C09": ("Left/right neighbour bookkeeping is correct or not depending on rank values at run time; the structural facts it rests "
-         "on (bitmap index kinds, one definition of a node's first/last child id) are decided under C01; nothing specific to C09 "
-         "remains that a static rule could decide (DESIGN.md section 4, C09)."),
 }
 
 PENDING = "no claim yet: the static rule set for this property is still under construction in this session (design in DESIGN.md section 4); it is not decided by any registered check"
